@@ -14,7 +14,7 @@ Definition interp_go (f : nat) (E : ectx) : list (string * option path) -> strin
   | (text, None) :: r => go r (acc +++ text) unk sec
   | (text, Some p) :: r =>
       pv <- eval_access W f E p ;;
-      let '(s, u, sc) := to_string big_fuel pv in
+      let '(s, u, sc) := to_string (ts_need pv) pv in
       go r (if u then acc +++ text else acc +++ text +++ s) (unk || u) (sec || sc)
   end.
 
@@ -27,7 +27,7 @@ Proof. reflexivity. Qed.
 Lemma interp_go_ref f E text p r acc unk sec :
   interp_go f E ((text, Some p) :: r) acc unk sec =
   (pv <- eval_access W f E p ;;
-   let '(s, u, sc) := to_string big_fuel pv in
+   let '(s, u, sc) := to_string (ts_need pv) pv in
    interp_go f E r (if u then acc +++ text else acc +++ text +++ s) (unk || u) (sec || sc)).
 Proof. reflexivity. Qed.
 
@@ -118,7 +118,7 @@ Definition fromjson_tail (r : chain * bool) : M chain :=
     else match v with
          | LScalar _ _ _ (SStr s) :: _ =>
              match json_parse s with
-             | JPOk j => ret (unexport big_fuel false (json_to_x (S (json_depth j)) sec j))
+             | JPOk j => ret (unexport (S (x_depth (json_to_x (S (json_depth j)) sec j))) false (json_to_x (S (json_depth j)) sec j))
              | JPErr => err ;;; ret [LScalar sec true ScAlways SNull]
              | JPUnsupported => out_of_fuel ;;; ret invalid_access
              end
@@ -137,7 +137,7 @@ Definition tojson_tail (v : chain) : M chain :=
        end.
 
 Definition tostring_tail (v : chain) : M chain :=
-  let '(s, unk, sec) := to_string big_fuel v in
+  let '(s, unk, sec) := to_string (ts_need v) v in
   if unk then ret [LScalar sec true (ScType "string") SNull] else ret [str_layer sec false s].
 
 Definition cipher_body (E : ectx) (repr : string) : M chain :=
@@ -161,14 +161,14 @@ Definition open_tail (E : ectx) (id : eid) (pname : string) (prov : option provi
   | None => ret [unknown_layer false out_s]
   | Some p =>
       if negb ok || contains_unknowns iv || w_check W then ret [unknown_layer false out_s]
-      else match export big_fuel iv with
+      else match export_t iv with
            | Some (XObj s u m as xin) =>
                failed2 <- call W ;;
                emit (EvOpen id pname xin (ec_root E) (ec_name E)) ;;;
                let out := if failed2 then None
                           else match pv_beh p with PEcho => Some xin | PConst v => Some v | PFail => None end in
                match out with
-               | Some o => ret (unexport big_fuel false o)
+               | Some o => ret (unexport (S (x_depth o)) false o)
                | None => err ;;; ret [unknown_layer false out_s]
                end
            | Some _ => err ;;; ret [unknown_layer false out_s]
@@ -250,8 +250,8 @@ Definition access_body (f : nat) (E : ectx) (p : path) : M chain :=
   | [] => ret invalid_access
   | a0 :: rest =>
       match object_key a0 with
-      | Some "imports" => let '(c, n) := value_access big_fuel (ec_imports E) rest in add_err n ;;; ret c
-      | Some "context" => let '(c, n) := value_access big_fuel (ec_context E) rest in add_err n ;;; ret c
+      | Some "imports" => let '(c, n) := value_access (va_need (ec_imports E) rest) (ec_imports E) rest in add_err n ;;; ret c
+      | Some "context" => let '(c, n) := value_access (va_need (ec_context E) rest) (ec_context E) rest in add_err n ;;; ret c
       | _ => walk W f E (EObj (ec_values E)) false (ec_base E) (ec_name E, []) p
       end
   end.
@@ -279,7 +279,7 @@ Definition walk_body (f : nat) (E : ectx) (rx : expr) (rsec : bool) (rbase : cha
               match find_entry k entries O with
               | Some (_, px) => walk W f E px false (property k rbase) (fst rid, snd rid ++ [IKey k]) rest
               | None =>
-                  if is_object rbase then let '(c, n) := value_access big_fuel rbase accs in add_err n ;;; ret c
+                  if is_object rbase then let '(c, n) := value_access (va_need rbase accs) rbase accs in add_err n ;;; ret c
                   else err ;;; ret invalid_access
               end
           end
@@ -287,7 +287,7 @@ Definition walk_body (f : nat) (E : ectx) (rx : expr) (rsec : bool) (rbase : cha
       | ESecretCipher _ => err ;;; ret invalid_access
       | _ =>
           v <- eval_expr W f E rx rsec rbase rid ;;
-          let '(c, n) := value_access big_fuel v accs in add_err n ;;; ret c
+          let '(c, n) := value_access (va_need v accs) v accs in add_err n ;;; ret c
       end
   end.
 
